@@ -114,3 +114,65 @@ Proof.
   - constructor.
   - intros H. apply andb_true_iff in H. destruct H as [H1 H2]. constructor; [now apply batch_okb_sound|now apply IH].
 Qed.
+
+(* ---------------------------------------------------------------- and conversely: no false alarms *)
+Lemma list_eqb_refl : forall A (eqb : A -> A -> bool), (forall x, eqb x x = true) -> forall l, list_eqb eqb l l = true.
+Proof. intros A eqb Hr. induction l as [|x l IH]; cbn; [reflexivity|]. now rewrite Hr, IH. Qed.
+Lemma opt_eqb_refl : forall a, opt_eqb a a = true.
+Proof. intros [x|]; cbn; [apply N.eqb_refl|reflexivity]. Qed.
+
+Lemma sorted_ascending : forall l, StronglySorted N.lt l -> ascending l = true.
+Proof.
+  induction l as [|x l IH]; intros H; [reflexivity|]. inversion H as [|? ? Hs Hall]; subst.
+  destruct l as [|y r]; [reflexivity|]. specialize (IH Hs).
+  change (ascending (x :: y :: r)) with ((x <? y) && ascending (y :: r)). rewrite IH, andb_true_r.
+  apply N.ltb_lt. rewrite Forall_forall in Hall. apply Hall. now left.
+Qed.
+
+Theorem dist_okb_complete : forall l d, dist_is l d -> dist_okb l d = true.
+Proof.
+  intros l d (Hs & Hpairs & Hall). unfold dist_okb.
+  rewrite (sorted_ascending _ Hs). cbn [andb].
+  assert (Hf : forallb (fun p => (snd p =? count (fst p) l) && (0 <? snd p)) d = true).
+  { apply forallb_forall. intros [v c] Hin. cbn [fst snd]. destruct (Hpairs v c Hin) as [E P].
+    apply andb_true_iff. split; [now apply N.eqb_eq|now apply N.ltb_lt]. }
+  rewrite Hf. cbn [andb]. apply N.eqb_eq.
+  assert (Hmap : map snd d = map (fun v => count v l) (map fst d)).
+  { rewrite map_map. apply map_ext_in. intros [v' c'] Hin. cbn. now destruct (Hpairs v' c' Hin). }
+  pose proof (count_partition (map fst d) l (sorted_lt_nodup _ Hs)) as Hp.
+  assert (Hnil : filter (fun x => negb (existsb (N.eqb x) (map fst d))) l = []).
+  { destruct (filter (fun x => negb (existsb (N.eqb x) (map fst d))) l) as [|z r] eqn:E; [reflexivity|]. exfalso.
+    assert (Hz : In z (filter (fun x => negb (existsb (N.eqb x) (map fst d))) l)) by (rewrite E; now left).
+    apply filter_In in Hz. destruct Hz as [Hz1 Hz2]. apply Hall in Hz1.
+    assert (Hex : existsb (N.eqb z) (map fst d) = true) by (apply existsb_exists; exists z; split; [assumption|apply N.eqb_refl]).
+    rewrite Hex in Hz2. discriminate. }
+  rewrite Hnil in Hp. cbn [length] in Hp. rewrite Hmap. lia.
+Qed.
+
+Theorem agg_okb_complete : forall sh es c, agg_ok sh es c -> agg_okb sh es c = true.
+Proof.
+  intros sh es c (H1 & H2 & H3 & H4). unfold agg_okb. rewrite H1, H2, H3.
+  rewrite (list_eqb_refl _ N.eqb N.eqb_refl), (list_eqb_refl _ opt_eqb opt_eqb_refl), PeanoNat.Nat.eqb_refl.
+  cbn [andb]. apply forallb_forall. intros i Hi. apply in_seq in Hi. apply dist_okb_complete. apply H4. lia.
+Qed.
+
+Lemma nodup_keys_complete : forall l, NoDup l -> nodup_keys l = true.
+Proof.
+  induction l as [|k l IH]; intros H; [reflexivity|]. inversion H as [|? ? Hn Hnd]; subst. cbn [nodup_keys].
+  rewrite (IH Hnd), andb_true_r. destruct (existsb (key_eqb k) l) eqn:E; [|reflexivity].
+  apply existsb_key_in in E. contradiction.
+Qed.
+
+Theorem batch_okb_complete : forall kf sh ep b, batch_ok kf sh ep b -> batch_okb kf sh ep b = true.
+Proof.
+  intros kf sh ep b (H1 & H2 & H3). unfold batch_okb. rewrite (nodup_keys_complete _ H1). cbn [andb].
+  assert (Ha : forallb (fun e => existsb (key_eqb (kf e)) (map fst b)) ep = true).
+  { apply forallb_forall. intros e He. apply existsb_key_in. now apply H2. }
+  rewrite Ha. cbn [andb]. apply forallb_forall. intros [k c] Hin. cbn [fst snd].
+  destruct (H3 k c Hin) as [Hne Hok]. destruct (group kf k ep) as [|e0 g] eqn:Eg; [contradiction|].
+  now apply agg_okb_complete.
+Qed.
+
+(* the checker DECIDES the promise *)
+Theorem batch_okb_iff : forall kf sh ep b, batch_okb kf sh ep b = true <-> batch_ok kf sh ep b.
+Proof. intros. split; [apply batch_okb_sound|apply batch_okb_complete]. Qed.
